@@ -413,3 +413,574 @@ Section Install.
         rewrite nthZ_set_nthZ by lia. destruct (Z.eqb_spec k bi); [exact Hnbm | apply Hall; exact Hk].
   Qed.
 End Install.
+
+(** * Blocks and addresses *)
+Lemma in32b_mod a : in32b a -> a mod 4294967296 = a.
+Proof. unfold in32b. intros. apply Z.mod_small. lia. Qed.
+
+Lemma blk_addr c m i b a : SInvC c m -> block_ok (cfg c) i b -> valid b = true ->
+  (da_idx (cdecode c a) = i /\ da_tag (cdecode c a) = btag b) <-> da_balign (cdecode c a) = baddr b.
+Proof.
+  intros HS [_ Hb] Hv. destruct (Hb Hv) as (_ & _ & _ & Ht & Hi & Hba & _).
+  unfold cdecode. pose proof (same_block_iff _ _ a (baddr b) (sinv_geom c m HS)) as H. cbv zeta in H.
+  rewrite Ht, Hi, Hba in H. tauto.
+Qed.
+
+Lemma blk_range c m i b a : SInvC c m -> block_ok (cfg c) i b -> valid b = true -> in32b a ->
+  (baddr b <= a < baddr b + bsize (bbits (cfg c))) <-> da_balign (cdecode c a) = baddr b.
+Proof.
+  intros HS [_ Hb] Hv Ha. destruct (Hb Hv) as (_ & _ & _ & Ht & Hi & Hba & _).
+  unfold cdecode. pose proof (in_block_iff _ _ (baddr b) a (sinv_geom c m HS)) as H. cbv zeta in H.
+  rewrite Hba, (in32b_mod a Ha) in H. exact H.
+Qed.
+
+(* offsets of an address inside its block *)
+Lemma blk_off c m a : SInvC c m -> in32b a ->
+  let da := cdecode c a in
+  a = da_balign da + 4 * da_boff da + da_byoff da /\
+  0 <= da_boff da < 2 ^ bbits (cfg c) /\ 0 <= da_byoff da < 4 /\
+  (a - da_balign da) / 4 = da_boff da /\ (a - da_balign da) mod 4 = da_byoff da /\
+  0 <= da_balign da /\ da_balign da + bsize (bbits (cfg c)) <= 4294967296 /\
+  (16384 <= a <-> 16384 <= da_balign da).
+Proof.
+  intros HS Ha. cbv zeta. unfold cdecode.
+  destruct (decode_spec _ _ a (sinv_geom c m HS)) as (Hx & Hbo & Hby & _ & _ & _ & H0 & Hhi & H14).
+  rewrite (in32b_mod a Ha) in *. repeat split; try lia.
+Qed.
+
+Lemma balign_in32 c m a : SInvC c m -> in32b (da_balign (cdecode c a)).
+Proof.
+  intros HS. unfold cdecode, in32b.
+  destruct (decode_spec _ _ a (sinv_geom c m HS)) as (_ & _ & _ & _ & _ & _ & H0 & Hhi & _).
+  pose proof (bsize_pos (bbits (cfg c)) ltac:(destruct (sinv_geom c m HS); lia)). lia.
+Qed.
+
+Lemma decode_balign c m a : SInvC c m ->
+  let da := cdecode c a in let db := cdecode c (da_balign da) in
+  da_tag db = da_tag da /\ da_idx db = da_idx da /\ da_balign db = da_balign da.
+Proof.
+  intros HS. cbv zeta. pose proof (sinv_geom c m HS) as G. unfold cdecode.
+  pose proof (balign_in32 c m a HS) as Hin. unfold cdecode in Hin.
+  assert (E: da_balign (decode_addr (ibits (cfg c)) (bbits (cfg c))
+               (da_balign (decode_addr (ibits (cfg c)) (bbits (cfg c)) a))) =
+             da_balign (decode_addr (ibits (cfg c)) (bbits (cfg c)) a)).
+  { apply (in_block_iff _ _ a _ G). rewrite (in32b_mod _ Hin).
+    pose proof (bsize_pos (bbits (cfg c)) ltac:(destruct G; lia)). lia. }
+  pose proof (proj2 (same_block_iff _ _ _ a G) E) as [Et Ei]. repeat split; assumption.
+Qed.
+
+Lemma mkblock_ok c m a v : SInvC c m ->
+  16384 <= da_balign (cdecode c a) ->
+  Z.of_nat (length v) = 2 ^ bbits (cfg c) ->
+  (forall j, 0 <= j < 2 ^ bbits (cfg c) -> 0 <= nthZ v j 0 < 4294967296) ->
+  block_ok (cfg c) (da_idx (cdecode c a)) (mkblock (cdecode c a) v).
+Proof.
+  intros HS Hlo Hlen Hw. split; [reflexivity|]. intros _. cbn [mkblock vals baddr btag].
+  destruct (decode_balign c m a HS) as (Et & Ei & Eb). pose proof (balign_in32 c m a HS) as Hin.
+  unfold cdecode in *. repeat split; try assumption; try apply Hw; try apply Hin; assumption.
+Qed.
+
+Lemma logical_byte c m a : SInvC c m -> 0 <= logicalC c m a < 256.
+Proof.
+  intros HS. unfold logicalC. destruct (res_block c a); [apply byte_of_range | apply (sinv_bytes c m HS)].
+Qed.
+
+(* a resident block is well-formed, valid, and is the block of the address *)
+Lemma res_block_Some c m a b : SInvC c m -> res_block c a = Some b ->
+  valid b = true /\ block_ok (cfg c) (da_idx (cdecode c a)) b /\ btag b = da_tag (cdecode c a) /\
+  baddr b = da_balign (cdecode c a) /\
+  exists k, 0 <= k < assoc (cfg c) /\ b = nthZ (blocks (get_set c (da_idx (cdecode c a)))) k empty_block.
+Proof.
+  intros HS Hr. unfold res_block in Hr. apply lookup_Some in Hr.
+  destruct Hr as (k & Hk & -> & Hm & _). apply matches_true in Hm. destruct Hm as [Hv Ht].
+  pose proof (sinv_set c m _ HS (sinv_idx c m a HS)) as (Hlen & _ & Hb & _).
+  rewrite Hlen in Hk. specialize (Hb k Hk).
+  split; [exact Hv|]. split; [exact Hb|]. split; [exact Ht|]. split.
+  - symmetry. apply (blk_addr c m _ _ a HS Hb Hv). split; [reflexivity | symmetry; exact Ht].
+  - exists k. split; [exact Hk | reflexivity].
+Qed.
+
+Lemma res_block_of c m i k a : SInvC c m -> 0 <= i < 2 ^ ibits (cfg c) -> 0 <= k < assoc (cfg c) ->
+  valid (nthZ (blocks (get_set c i)) k empty_block) = true ->
+  da_balign (cdecode c a) = baddr (nthZ (blocks (get_set c i)) k empty_block) ->
+  res_block c a = Some (nthZ (blocks (get_set c i)) k empty_block).
+Proof.
+  intros HS Hi Hk Hv Hba. pose proof (sinv_set c m i HS Hi) as (Hlen & _ & Hb & Hu).
+  apply (blk_addr c m i _ a HS (Hb k Hk) Hv) in Hba. destruct Hba as [Ei Et].
+  unfold res_block. rewrite Ei. apply lookup_hit; [exact Hu | lia |].
+  apply matches_true. split; [exact Hv | symmetry; exact Et].
+Qed.
+
+(** * Logical contents after the elementary updates *)
+Lemma logical_touch c m i bi a : SInvC c m -> 0 <= i < 2 ^ ibits (cfg c) ->
+  logicalC (touch c i bi) m a = logicalC c m a.
+Proof.
+  intros HS Hi. unfold logicalC. rewrite (res_touch c m i bi a HS Hi).
+  change (cdecode (touch c i bi) a) with (cdecode c a). reflexivity.
+Qed.
+
+Lemma logical_lower c m m' a :
+  logicalC c m' a = match res_block c a with Some _ => logicalC c m a | None => mget m' a end.
+Proof. unfold logicalC. destruct (res_block c a); reflexivity. Qed.
+
+Section InstallLogical.
+  Variables (c : cache Z) (m : zmap) (i bi : Z) (nb : cblock Z).
+  Hypothesis HS : SInvC c m.
+  Hypothesis Hi : 0 <= i < 2 ^ ibits (cfg c).
+  Hypothesis Hbi : 0 <= bi < assoc (cfg c).
+  Hypothesis Hnb : block_ok (cfg c) i nb.
+  Hypothesis Hv : valid nb = true.
+  Hypothesis Hno : no_other (blocks (get_set c i)) bi (btag nb).
+
+  Let old := nthZ (blocks (get_set c i)) bi empty_block.
+
+  (* an address not resident after the install was not resident before, or lies in the
+     displaced block *)
+  Lemma res_install_None a : res_block (install c i bi nb) a = None ->
+    da_balign (cdecode c a) <> baddr nb /\
+    (res_block c a = None \/
+     (valid old = true /\ da_balign (cdecode c a) = baddr old /\ res_block c a = Some old)).
+  Proof.
+    intros Hr.
+    assert (Hne: da_balign (cdecode c a) <> baddr nb).
+    { intros E. apply (blk_addr c m i nb a HS Hnb Hv) in E. destruct E as [Ei Et].
+      rewrite (res_install_same c m i bi nb HS Hi Hbi Hnb Hv Hno a Ei Et) in Hr. discriminate. }
+    split; [exact Hne|].
+    rewrite (res_install_other c m i bi nb HS Hi Hbi Hnb Hv Hno a) in Hr.
+    2:{ intros E. apply Hne. apply (blk_addr c m i nb a HS Hnb Hv). exact E. }
+    fold old in Hr.
+    destruct ((da_idx (cdecode c a) =? i) && matches old (da_tag (cdecode c a))) eqn:E; [|left; exact Hr].
+    right. apply andb_true_iff in E. destruct E as [Ei Em]. apply Z.eqb_eq in Ei.
+    apply matches_true in Em. destruct Em as [Hvo Et].
+    pose proof (sinv_set c m i HS Hi) as (_ & _ & Hb & _).
+    assert (Hba: da_balign (cdecode c a) = baddr old).
+    { apply (blk_addr c m i old a HS (Hb bi Hbi) Hvo). split; [exact Ei | symmetry; exact Et]. }
+    split; [exact Hvo|]. split; [exact Hba|].
+    apply (res_block_of c m i bi a HS Hi Hbi Hvo Hba).
+  Qed.
+
+  Lemma logical_install m' :
+    (forall a, in32b a -> res_block (install c i bi nb) a = None -> mget m' a = logicalC c m a) ->
+    forall a, in32b a ->
+    logicalC (install c i bi nb) m' a =
+    if da_balign (cdecode c a) =? baddr nb
+    then byte_of (nthZ (vals nb) (da_boff (cdecode c a)) 0) (da_byoff (cdecode c a))
+    else logicalC c m a.
+  Proof.
+    intros Hm' a Ha. unfold logicalC at 1.
+    change (cdecode (install c i bi nb) a) with (cdecode c a).
+    destruct (Z.eqb_spec (da_balign (cdecode c a)) (baddr nb)) as [E|Hne].
+    - apply (blk_addr c m i nb a HS Hnb Hv) in E. destruct E as [Ei Et].
+      rewrite (res_install_same c m i bi nb HS Hi Hbi Hnb Hv Hno a Ei Et). reflexivity.
+    - destruct (res_block (install c i bi nb) a) as [b|] eqn:Er; [|apply Hm'; assumption].
+      rewrite (res_install_other c m i bi nb HS Hi Hbi Hnb Hv Hno a) in Er.
+      2:{ intros E. apply Hne. apply (blk_addr c m i nb a HS Hnb Hv). exact E. }
+      destruct ((da_idx (cdecode c a) =? i) && _); [discriminate|].
+      unfold logicalC. rewrite Er. reflexivity.
+  Qed.
+End InstallLogical.
+
+(** * Scenarios on (cache, lower memory) *)
+Definition vals_ok (c : cache Z) (v : list Z) : Prop :=
+  Z.of_nat (length v) = 2 ^ bbits (cfg c) /\
+  (forall j, 0 <= j < 2 ^ bbits (cfg c) -> 0 <= nthZ v j 0 < 4294967296).
+
+Lemma find_hit_facts c m a bi : SInvC c m ->
+  find_block (blocks (get_set c (da_idx (cdecode c a)))) (da_tag (cdecode c a)) 0 = Some bi ->
+  let old := nthZ (blocks (get_set c (da_idx (cdecode c a)))) bi empty_block in
+  0 <= bi < assoc (cfg c) /\ valid old = true /\ btag old = da_tag (cdecode c a) /\
+  block_ok (cfg c) (da_idx (cdecode c a)) old /\ baddr old = da_balign (cdecode c a) /\
+  16384 <= da_balign (cdecode c a) /\ vals_ok c (vals old) /\
+  no_other (blocks (get_set c (da_idx (cdecode c a)))) bi (da_tag (cdecode c a)) /\
+  res_block c a = Some old.
+Proof.
+  intros HS Hf. cbv zeta.
+  pose proof (sinv_set c m _ HS (sinv_idx c m a HS)) as (Hlen & _ & Hb & Hu).
+  pose proof (find_block_Some _ _ _ _ Hf) as [Hbi Hm]. replace (bi - 0) with bi in Hm by lia.
+  apply matches_true in Hm. destruct Hm as [Hv Ht]. rewrite Hlen in Hbi.
+  assert (Hbi': 0 <= bi < assoc (cfg c)) by lia. pose proof (Hb bi Hbi') as Hok.
+  assert (Hba: da_balign (cdecode c a) = baddr (nthZ (blocks (get_set c (da_idx (cdecode c a)))) bi empty_block)).
+  { apply (blk_addr c m _ _ a HS Hok Hv). split; [reflexivity | symmetry; exact Ht]. }
+  destruct Hok as [Hd Hok']. pose proof (Hok' Hv) as (L1 & L2 & _ & _ & _ & _ & L14).
+  split; [exact Hbi'|]. split; [exact Hv|]. split; [exact Ht|]. split; [split; assumption|].
+  split; [symmetry; exact Hba|]. split; [rewrite Hba; exact L14|]. split; [split; assumption|].
+  split.
+  - intros bj Hbj Hne. destruct (matches _ _) eqn:E; [|reflexivity]. exfalso. apply Hne.
+    apply matches_true in E. destruct E as [Vj Tj]. apply Hu; try lia; try assumption.
+  - unfold res_block, lookup. rewrite Hf. reflexivity.
+Qed.
+
+Lemma hit_update c m a bi v : SInvC c m ->
+  find_block (blocks (get_set c (da_idx (cdecode c a)))) (da_tag (cdecode c a)) 0 = Some bi ->
+  vals_ok c v ->
+  let c' := install c (da_idx (cdecode c a)) bi (mkblock (cdecode c a) v) in
+  SInvC c' m /\
+  forall a', in32b a' ->
+    logicalC c' m a' =
+    if da_balign (cdecode c a') =? da_balign (cdecode c a)
+    then byte_of (nthZ v (da_boff (cdecode c a')) 0) (da_byoff (cdecode c a'))
+    else logicalC c m a'.
+Proof.
+  intros HS Hf [Hlen Hw]. cbv zeta.
+  destruct (find_hit_facts c m a bi HS Hf) as (Hbi & Hvo & Hto & Hoko & Hbao & H14 & _ & Hno & _).
+  pose proof (sinv_idx c m a HS) as Hi.
+  pose proof (mkblock_ok c m a v HS H14 Hlen Hw) as Hnb.
+  split; [apply sinv_install; try assumption; reflexivity|].
+  apply (logical_install c m _ bi _ HS Hi Hbi Hnb eq_refl Hno m).
+  intros a' Ha' Hr.
+  destruct (res_install_None c m _ bi _ HS Hi Hbi Hnb eq_refl Hno a' Hr) as [Hne [Hn|(_ & E & _)]].
+  - unfold logicalC. rewrite Hn. reflexivity.
+  - exfalso. apply Hne. cbn [mkblock baddr]. rewrite E. exact Hbao.
+Qed.
+
+(* writing a valid block back: lower memory takes the logical contents on the block's range
+   and keeps everything else *)
+Lemma writeback_ok c m i bi : SInvC c m -> 0 <= i < 2 ^ ibits (cfg c) -> 0 <= bi < assoc (cfg c) ->
+  let old := nthZ (blocks (get_set c i)) bi empty_block in
+  valid old = true ->
+  let m' := write_words m (baddr old) (vals old) in
+  bytes_ok m' /\
+  forall a, in32b a ->
+    mget m' a = if da_balign (cdecode c a) =? baddr old then logicalC c m a else mget m a.
+Proof.
+  intros HS Hi Hbi. cbv zeta. intros Hv.
+  set (old := nthZ (blocks (get_set c i)) bi empty_block) in *.
+  pose proof (sinv_set c m i HS Hi) as (_ & _ & Hb & _). pose proof (Hb bi Hbi) as Hok. fold old in Hok.
+  pose proof Hok as [_ Hok']. destruct (Hok' Hv) as (L1 & L2 & L3 & _ & _ & L6 & L14).
+  pose proof (sinv_geom c m HS) as G.
+  pose proof (bsize_eq (bbits (cfg c)) ltac:(destruct G; lia)) as HB.
+  assert (Hhi: baddr old + bsize (bbits (cfg c)) <= 4294967296).
+  { pose proof (blk_off c m (baddr old) HS L3) as H. cbv zeta in H. unfold cdecode in H.
+    rewrite L6 in H. lia. }
+  assert (W: forall z, mget (write_words m (baddr old) (vals old)) z =
+             if (baddr old <=? z) && (z <? baddr old + 4 * Z.of_nat (length (vals old)))
+             then byte_of (nthZ (vals old) ((z - baddr old) / 4) 0) ((z - baddr old) mod 4) else mget m z).
+  { apply write_words_loc; lia. }
+  split.
+  - intros z. rewrite W. destruct (_ && _); [apply byte_of_range | apply (sinv_bytes c m HS)].
+  - intros a Ha. rewrite W. rewrite L1, <- HB.
+    destruct (Z.eqb_spec (da_balign (cdecode c a)) (baddr old)) as [E|Hne].
+    + pose proof (proj2 (blk_range c m i old a HS Hok Hv Ha) E) as Hr.
+      replace ((baddr old <=? a) && (a <? baddr old + bsize (bbits (cfg c)))) with true by lia.
+      unfold logicalC. rewrite (res_block_of c m i bi a HS Hi Hbi Hv E). fold old.
+      pose proof (blk_off c m a HS Ha) as H. cbv zeta in H. destruct H as (_ & _ & _ & O1 & O2 & _).
+      rewrite <- E, O1, O2. reflexivity.
+    + assert (~ (baddr old <= a < baddr old + bsize (bbits (cfg c)))).
+      { intros Hr. apply Hne. apply (blk_range c m i old a HS Hok Hv Ha). exact Hr. }
+      replace ((baddr old <=? a) && (a <? baddr old + bsize (bbits (cfg c)))) with false by lia.
+      reflexivity.
+Qed.
+
+(* filling the victim way on a miss, given a new lower memory m' that holds the old logical
+   contents wherever the new cache has no block *)
+Lemma fill c m a v m' : SInvC c m ->
+  find_block (blocks (get_set c (da_idx (cdecode c a)))) (da_tag (cdecode c a)) 0 = None ->
+  16384 <= da_balign (cdecode c a) -> vals_ok c v ->
+  let bi := pol_victim (policy (get_set c (da_idx (cdecode c a)))) in
+  let old := nthZ (blocks (get_set c (da_idx (cdecode c a)))) bi empty_block in
+  let c' := install c (da_idx (cdecode c a)) bi (mkblock (cdecode c a) v) in
+  bytes_ok m' ->
+  (forall a', in32b a' -> res_block c a' = None -> mget m' a' = mget m a') ->
+  (valid old = true -> forall a', in32b a' -> da_balign (cdecode c a') = baddr old ->
+     mget m' a' = logicalC c m a') ->
+  0 <= bi < assoc (cfg c) /\ SInvC c' m' /\
+  forall a', in32b a' ->
+    logicalC c' m' a' =
+    if da_balign (cdecode c a') =? da_balign (cdecode c a)
+    then byte_of (nthZ v (da_boff (cdecode c a')) 0) (da_byoff (cdecode c a'))
+    else logicalC c m a'.
+Proof.
+  intros HS Hf H14 [Hlen Hw]. cbv zeta. intros Hb' Hkeep Hold.
+  pose proof (sinv_idx c m a HS) as Hi.
+  pose proof (sinv_set c m _ HS Hi) as (Hl & Hp & _ & _).
+  pose proof (pol_victim_range _ _ (sinv_cfg c m HS) Hp) as Hbi.
+  pose proof (mkblock_ok c m a v HS H14 Hlen Hw) as Hnb.
+  assert (Hno: no_other (blocks (get_set c (da_idx (cdecode c a))))
+                 (pol_victim (policy (get_set c (da_idx (cdecode c a))))) (da_tag (cdecode c a))).
+  { intros bj Hbj _. apply (find_block_None _ _ _ Hf). exact Hbj. }
+  split; [exact Hbi|].
+  assert (HS': SInvC (install c (da_idx (cdecode c a)) (pol_victim (policy (get_set c (da_idx (cdecode c a)))))
+                        (mkblock (cdecode c a) v)) m).
+  { apply sinv_install; try assumption; reflexivity. }
+  split; [apply (sinv_lower _ m m' HS' Hb')|].
+  apply (logical_install c m _ _ _ HS Hi Hbi Hnb eq_refl Hno m').
+  intros a' Ha' Hr.
+  destruct (res_install_None c m _ _ _ HS Hi Hbi Hnb eq_refl Hno a' Hr) as [Hne [Hn|(Vo & E & _)]].
+  - unfold logicalC. rewrite Hn. apply Hkeep; assumption.
+  - apply Hold; assumption.
+Qed.
+
+Lemma miss_block c m a a' : SInvC c m ->
+  find_block (blocks (get_set c (da_idx (cdecode c a)))) (da_tag (cdecode c a)) 0 = None ->
+  da_balign (cdecode c a') = da_balign (cdecode c a) -> res_block c a' = None.
+Proof.
+  intros HS Hf E. unfold cdecode in E. apply (same_block_iff _ _ a' a (sinv_geom c m HS)) in E.
+  destruct E as [Et Ei]. unfold res_block, lookup, cdecode. rewrite Et, Ei. unfold cdecode in Hf.
+  rewrite Hf. reflexivity.
+Qed.
+
+Lemma fill_wb c m a v : SInvC c m ->
+  find_block (blocks (get_set c (da_idx (cdecode c a)))) (da_tag (cdecode c a)) 0 = None ->
+  16384 <= da_balign (cdecode c a) -> vals_ok c v ->
+  let bi := pol_victim (policy (get_set c (da_idx (cdecode c a)))) in
+  let old := nthZ (blocks (get_set c (da_idx (cdecode c a)))) bi empty_block in
+  let c' := install c (da_idx (cdecode c a)) bi (mkblock (cdecode c a) v) in
+  let m' := if dirty old then write_words m (baddr old) (vals old) else m in
+  SInvC c' m' /\
+  forall a', in32b a' ->
+    logicalC c' m' a' =
+    if da_balign (cdecode c a') =? da_balign (cdecode c a)
+    then byte_of (nthZ v (da_boff (cdecode c a')) 0) (da_byoff (cdecode c a'))
+    else logicalC c m a'.
+Proof.
+  intros HS Hf H14 Hv. cbv zeta.
+  pose proof (sinv_idx c m a HS) as Hi.
+  pose proof (sinv_set c m _ HS Hi) as (_ & Hp & Hb & _).
+  pose proof (pol_victim_range _ _ (sinv_cfg c m HS) Hp) as Hbi.
+  set (bi := pol_victim (policy (get_set c (da_idx (cdecode c a))))) in *.
+  set (old := nthZ (blocks (get_set c (da_idx (cdecode c a)))) bi empty_block).
+  pose proof (Hb bi Hbi) as Hok. fold old in Hok. pose proof Hok as [Hd _].
+  destruct (dirty old) eqn:Ed.
+  - symmetry in Hd. destruct (writeback_ok c m _ bi HS Hi Hbi Hd) as [W1 W2]. fold old in W1, W2.
+    apply (fill c m a v _ HS Hf H14 Hv W1).
+    + intros a' Ha' Hn. rewrite (W2 a' Ha').
+      destruct (Z.eqb_spec (da_balign (cdecode c a')) (baddr old)) as [E|]; [|reflexivity].
+      fold bi in E. fold old in E.
+      rewrite (res_block_of c m _ bi a' HS Hi Hbi Hd E) in Hn. discriminate.
+    + fold bi. fold old. intros _ a' Ha' E. rewrite (W2 a' Ha').
+      rewrite (proj2 (Z.eqb_eq _ _) E). reflexivity.
+  - apply (fill c m a v m HS Hf H14 Hv (sinv_bytes c m HS)).
+    + intros; reflexivity.
+    + fold bi. fold old. intros Hvo. congruence.
+Qed.
+
+Lemma fill_wt c m a v : SInvC c m -> WTInvC c m ->
+  find_block (blocks (get_set c (da_idx (cdecode c a)))) (da_tag (cdecode c a)) 0 = None ->
+  16384 <= da_balign (cdecode c a) -> vals_ok c v ->
+  let bi := pol_victim (policy (get_set c (da_idx (cdecode c a)))) in
+  let c' := install c (da_idx (cdecode c a)) bi (mkblock (cdecode c a) v) in
+  SInvC c' m /\
+  forall a', in32b a' ->
+    logicalC c' m a' =
+    if da_balign (cdecode c a') =? da_balign (cdecode c a)
+    then byte_of (nthZ v (da_boff (cdecode c a')) 0) (da_byoff (cdecode c a'))
+    else logicalC c m a'.
+Proof.
+  intros HS HW Hf H14 Hv. cbv zeta.
+  apply (fill c m a v m HS Hf H14 Hv (sinv_bytes c m HS)).
+  - intros; reflexivity.
+  - intros _ a' Ha' _. apply HW. exact Ha'.
+Qed.
+
+(* fetching a block from lower memory *)
+Lemma read_block_lower c m a : SInvC c m -> 16384 <= da_balign (cdecode c a) ->
+  exists v, read_words m (da_balign (cdecode c a)) (Z.to_nat (2 ^ bbits (cfg c))) = Ok v /\
+    vals_ok c v /\
+    forall a', in32b a' -> da_balign (cdecode c a') = da_balign (cdecode c a) ->
+      byte_of (nthZ v (da_boff (cdecode c a')) 0) (da_byoff (cdecode c a')) = mget m a'.
+Proof.
+  intros HS H14. pose proof (sinv_geom c m HS) as G.
+  pose proof (bsize_eq (bbits (cfg c)) ltac:(destruct G; lia)) as HB.
+  pose proof (p2pos (bbits (cfg c)) ltac:(destruct G; lia)) as HP.
+  pose proof (sinv_bytes c m HS) as Hb.
+  assert (Hhi: da_balign (cdecode c a) + bsize (bbits (cfg c)) <= 4294967296).
+  { unfold cdecode. destruct (decode_spec _ _ a G) as (_ & _ & _ & _ & _ & _ & _ & H & _). exact H. }
+  destruct (read_words_loc m (Z.to_nat (2 ^ bbits (cfg c))) (da_balign (cdecode c a)))
+    as (v & Hr & Hlen & Hnth); [exact H14 | lia | intros; apply Hb |].
+  exists v. split; [exact Hr|]. split; [split|].
+  - lia.
+  - intros j Hj. rewrite Hnth by lia. change 4294967296 with (2 ^ (8 * Z.of_nat 4)).
+    apply le_bytes_range. intros; apply Hb.
+  - intros a' Ha' E. pose proof (blk_off c m a' HS Ha') as H. cbv zeta in H.
+    destruct H as (Hx & Hbo & Hby & _). rewrite Hnth by lia.
+    rewrite byte_of_le_bytes; [| intros; apply Hb | change (Z.of_nat 4) with 4; lia].
+    f_equal. rewrite <- E. lia.
+Qed.
+
+Lemma read_block_lower_bad c m a : SInvC c m -> da_balign (cdecode c a) < 16384 ->
+  read_words m (da_balign (cdecode c a)) (Z.to_nat (2 ^ bbits (cfg c))) = Err (aerr (da_balign (cdecode c a))).
+Proof.
+  intros HS Hlt. pose proof (sinv_geom c m HS) as G.
+  pose proof (p2pos (bbits (cfg c)) ltac:(destruct G; lia)) as HP.
+  pose proof (balign_in32 c m a HS) as Hin. unfold in32b in Hin.
+  apply read_words_bad; lia.
+Qed.
+
+(** * The data cache: block read *)
+Definition same_logical (d d' : dcache) : Prop := forall a, in32b a -> logical d' a = logical d a.
+
+Lemma pair_eq {A B} (a c : A) (b e : B) : (a, b) = (c, e) -> a = c /\ b = e.
+Proof. intros H; injection H; auto. Qed.
+
+Lemma cinv_sinv d : CInv d -> SInvC (dc d) (lower d).
+Proof. intros [H _]; exact H. Qed.
+
+Lemma dc_read_block_ok d a r d' : CInv d ->
+  dc_read_block d (cdecode (dc d) a) = (r, d') ->
+  CInv d' /\ wthrough d' = wthrough d /\ cfg (dc d') = cfg (dc d) /\ same_logical d d' /\
+  match r with
+  | Ok (blk, hit) =>
+      16384 <= da_balign (cdecode (dc d) a) /\
+      forall a', in32b a' -> da_balign (cdecode (dc d) a') = da_balign (cdecode (dc d) a) ->
+        0 <= nthZ blk (da_boff (cdecode (dc d) a')) 0 < 4294967296 /\
+        byte_of (nthZ blk (da_boff (cdecode (dc d) a')) 0) (da_byoff (cdecode (dc d) a')) = logical d a'
+  | Err e => da_balign (cdecode (dc d) a) < 16384 /\ e = aerr (da_balign (cdecode (dc d) a)) /\ d' = d
+  end.
+Proof.
+  intros [HS HW] H. unfold SInv in HS. unfold dc_read_block in H. rewrite cache_read_block_eq in H.
+  destruct (find_block (blocks (get_set (dc d) (da_idx (cdecode (dc d) a)))) (da_tag (cdecode (dc d) a)) 0)
+    as [bi|] eqn:Hf.
+  - (* hit *)
+    apply pair_eq in H; destruct H as [<- <-].
+    destruct (find_hit_facts _ _ a bi HS Hf) as (Hbi & Hvo & Hto & Hoko & Hbao & H14 & [Hl Hw] & Hno & Hres).
+    pose proof (sinv_idx _ _ a HS) as Hi.
+    assert (SL: same_logical d (upd_dc d (touch (dc d) (da_idx (cdecode (dc d) a)) bi))).
+    { intros a' Ha'. unfold logical. cbn [dc lower upd_dc]. apply (logical_touch _ _ _ _ _ HS Hi). }
+    split.
+    { split.
+      - unfold SInv. cbn [dc lower upd_dc]. apply sinv_touch; assumption.
+      - intros Hwt a' Ha'. rewrite (SL a' Ha'). apply (HW Hwt a' Ha'). }
+    split; [reflexivity|]. split; [reflexivity|]. split; [exact SL|].
+    split; [exact H14|]. intros a' Ha' E.
+    assert (Hr: res_block (dc d) a' = Some (nthZ (blocks (get_set (dc d) (da_idx (cdecode (dc d) a)))) bi empty_block)).
+    { apply (res_block_of _ _ _ bi a' HS Hi Hbi Hvo). rewrite E. symmetry. exact Hbao. }
+    pose proof (blk_off _ _ a' HS Ha') as Ho. cbv zeta in Ho. destruct Ho as (_ & Hbo & _).
+    split; [apply Hw; exact Hbo|].
+    unfold logical, logicalC. rewrite Hr. reflexivity.
+  - (* miss *)
+    destruct (Z_le_gt_dec 16384 (da_balign (cdecode (dc d) a))) as [H14|H14].
+    + destruct (read_block_lower _ _ a HS H14) as (v & Hr & Hvok & Hbytes).
+      unfold block_words in H. rewrite Hr in H. rewrite cache_write_block_eq, Hf in H. cbv zeta in H.
+      assert (Hfresh: forall a', in32b a' ->
+                da_balign (cdecode (dc d) a') = da_balign (cdecode (dc d) a) ->
+                byte_of (nthZ v (da_boff (cdecode (dc d) a')) 0) (da_byoff (cdecode (dc d) a')) =
+                logicalC (dc d) (lower d) a').
+      { intros a' Ha' E. rewrite (Hbytes a' Ha' E). unfold logicalC.
+        rewrite (miss_block _ _ a a' HS Hf E). reflexivity. }
+      assert (Hres: forall a', in32b a' ->
+                da_balign (cdecode (dc d) a') = da_balign (cdecode (dc d) a) ->
+                0 <= nthZ v (da_boff (cdecode (dc d) a')) 0 < 4294967296 /\
+                byte_of (nthZ v (da_boff (cdecode (dc d) a')) 0) (da_byoff (cdecode (dc d) a')) = logical d a').
+      { intros a' Ha' E. split; [|apply Hfresh; assumption].
+        pose proof (blk_off _ _ a' HS Ha') as Ho. cbv zeta in Ho. destruct Ho as (_ & Hbo & _).
+        apply Hvok. exact Hbo. }
+      destruct (wthrough d) eqn:Hwt.
+      * (* write-through: the displaced block is dropped *)
+        destruct (fill_wt _ _ a v HS (HW eq_refl) Hf H14 Hvok) as [S' L'].
+        set (c' := install (dc d) (da_idx (cdecode (dc d) a))
+                     (pol_victim (policy (get_set (dc d) (da_idx (cdecode (dc d) a)))))
+                     (mkblock (cdecode (dc d) a) v)) in *.
+        assert (E': d' = upd_dc d c' /\ r = Ok (v, false)).
+        { destruct (dirty _) in H; apply pair_eq in H; destruct H as [<- <-]; split; reflexivity. }
+        destruct E' as [-> ->].
+        assert (SL: same_logical d (upd_dc d c')).
+        { intros a' Ha'. unfold logical. cbn [dc lower upd_dc]. rewrite (L' a' Ha').
+          destruct (Z.eqb_spec (da_balign (cdecode (dc d) a')) (da_balign (cdecode (dc d) a))) as [E|]; [|reflexivity].
+          apply Hfresh; assumption. }
+        split.
+        { split; [exact S'|]. intros _ a' Ha'. rewrite (SL a' Ha').
+          apply (HW eq_refl a' Ha'). }
+        split; [cbn [wthrough upd_dc]; exact Hwt|]. split; [reflexivity|]. split; [exact SL|].
+        split; [exact H14 | exact Hres].
+      * (* write-back *)
+        destruct (fill_wb _ _ a v HS Hf H14 Hvok) as [S' L'].
+        set (c' := install (dc d) (da_idx (cdecode (dc d) a))
+                     (pol_victim (policy (get_set (dc d) (da_idx (cdecode (dc d) a)))))
+                     (mkblock (cdecode (dc d) a) v)) in *.
+        set (old := nthZ (blocks (get_set (dc d) (da_idx (cdecode (dc d) a))))
+                      (pol_victim (policy (get_set (dc d) (da_idx (cdecode (dc d) a))))) empty_block) in *.
+        assert (E': dc d' = c' /\ lower d' = (if dirty old then write_words (lower d) (baddr old) (vals old) else lower d)
+                    /\ wthrough d' = false /\ r = Ok (v, false)).
+        { destruct (dirty old) in H |- *; apply pair_eq in H; destruct H as [<- <-]; cbn [dc lower wthrough upd_dc upd_lower];
+            repeat split; try reflexivity; exact Hwt. }
+        destruct E' as (E1 & E2 & E3 & ->).
+        assert (SL: same_logical d d').
+        { intros a' Ha'. unfold logical. rewrite E1, E2. rewrite (L' a' Ha').
+          destruct (Z.eqb_spec (da_balign (cdecode (dc d) a')) (da_balign (cdecode (dc d) a))) as [E|]; [|reflexivity].
+          apply Hfresh; assumption. }
+        split.
+        { split; [unfold SInv; rewrite E1, E2; exact S'|]. rewrite E3. discriminate. }
+        split; [exact E3|]. split; [rewrite E1; reflexivity|]. split; [exact SL|].
+        split; [exact H14 | exact Hres].
+    + unfold block_words in H. rewrite (read_block_lower_bad _ _ a HS) in H by lia.
+      apply pair_eq in H; destruct H as [<- <-].
+      split; [split; assumption|]. split; [reflexivity|]. split; [reflexivity|].
+      split; [intros a' _; reflexivity|]. split; [lia|]. split; reflexivity.
+Qed.
+
+(** * Everything depends only on (dc, lower, wthrough) *)
+Definition same_core (d1 d2 : dcache) : Prop :=
+  dc d2 = dc d1 /\ lower d2 = lower d1 /\ wthrough d2 = wthrough d1.
+
+Lemma core_logical d1 d2 a : same_core d1 d2 -> logical d2 a = logical d1 a.
+Proof. intros (E1 & E2 & _). unfold logical. rewrite E1, E2. reflexivity. Qed.
+
+Lemma core_cinv d1 d2 : same_core d1 d2 -> CInv d1 -> CInv d2.
+Proof.
+  intros (E1 & E2 & E3) [HS HW]. split.
+  - unfold SInv. rewrite E1, E2. exact HS.
+  - rewrite E3. intros Hwt a Ha. unfold logical. rewrite E1, E2. apply (HW Hwt a Ha).
+Qed.
+
+Lemma core_stats d hit (counted : bool) :
+  same_core d (fst (if counted then upd_stats d hit else (d, 0))).
+Proof. destruct counted; cbn [fst upd_stats]; repeat split; reflexivity. Qed.
+
+Lemma core_upd_stats d hit : same_core d (fst (upd_stats d hit)).
+Proof. repeat split; reflexivity. Qed.
+
+(** * Addresses inside one word *)
+Lemma cdecode_mod (c : cache Z) a : cdecode c (a mod 4294967296) = cdecode c a.
+Proof. unfold cdecode. apply decode_mod. Qed.
+
+Lemma byoff_eq (c : cache Z) m a : SInvC c m -> da_byoff (cdecode c a) = (a mod 4294967296) mod 4.
+Proof.
+  intros HS. unfold cdecode.
+  destruct (decode_fields _ _ a (sinv_geom c m HS)) as (_ & _ & _ & _ & H & _). exact H.
+Qed.
+
+Lemma inword_addrs c m a j : SInvC c m -> 0 <= j -> da_byoff (cdecode c a) + j < 4 ->
+  in32b (a mod 4294967296 + j) /\
+  da_balign (cdecode c (a mod 4294967296 + j)) = da_balign (cdecode c a) /\
+  da_boff (cdecode c (a mod 4294967296 + j)) = da_boff (cdecode c a) /\
+  da_byoff (cdecode c (a mod 4294967296 + j)) = da_byoff (cdecode c a) + j.
+Proof.
+  intros HS Hj Hlt. unfold cdecode in *.
+  destruct (decode_same_word _ _ a j (sinv_geom c m HS) Hj Hlt) as (Hm & _ & _ & Hba & Hbo & Hby).
+  repeat split; try assumption; unfold in32b; lia.
+Qed.
+
+Lemma inword_range c m a : SInvC c m ->
+  let x := a mod 4294967296 in
+  x = da_balign (cdecode c a) + 4 * da_boff (cdecode c a) + da_byoff (cdecode c a) /\
+  0 <= da_byoff (cdecode c a) < 4 /\
+  x - da_byoff (cdecode c a) + 4 <= 4294967296 /\
+  (16384 <= x <-> 16384 <= da_balign (cdecode c a)) /\
+  (16384 <= x <-> 16384 <= x - da_byoff (cdecode c a)).
+Proof.
+  intros HS. cbv zeta. unfold cdecode.
+  pose proof (sinv_geom c m HS) as G.
+  destruct (decode_spec _ _ a G) as (Hx & Hbo & Hby & _ & _ & _ & H0 & Hhi & H14).
+  pose proof (bsize_eq (bbits (cfg c)) ltac:(destruct G; lia)) as HB.
+  pose proof (bsize_div14 (bbits (cfg c)) ltac:(destruct G; lia)) as HD.
+  pose proof (p2pos (12 - bbits (cfg c)) ltac:(destruct G; lia)) as HK.
+  repeat split; lia.
+Qed.
+
+Lemma inword_iff c m a a' k : SInvC c m -> in32b a' -> 0 <= k ->
+  da_byoff (cdecode c a) + k <= 4 ->
+  let x := a mod 4294967296 in
+  (x <= a' < x + k ->
+     da_balign (cdecode c a') = da_balign (cdecode c a) /\
+     da_boff (cdecode c a') = da_boff (cdecode c a) /\
+     da_byoff (cdecode c a') = da_byoff (cdecode c a) + (a' - x)) /\
+  (da_balign (cdecode c a') = da_balign (cdecode c a) ->
+   da_boff (cdecode c a') = da_boff (cdecode c a) ->
+   a' - x = da_byoff (cdecode c a') - da_byoff (cdecode c a)).
+Proof.
+  intros HS Ha' Hk Hin. cbv zeta. split.
+  - intros Hr. destruct (inword_addrs c m a (a' - a mod 4294967296) HS) as (_ & H1 & H2 & H3); try lia.
+    replace (a mod 4294967296 + (a' - a mod 4294967296)) with a' in * by lia. tauto.
+  - intros E1 E2. destruct (inword_range c m a HS) as (Hx & _).
+    destruct (blk_off c m a' HS Ha') as (Hx' & _). lia.
+Qed.
